@@ -1,4 +1,5 @@
 import Vore.Model.Engine
+import Vore.Lemmas.SimR
 /-!
 # C13 — Definitions are transparent; commands, runs and compilations are independent
 
@@ -31,6 +32,54 @@ theorem C13_relocate_atoms (k : Nat) :
     (∀ n, Instr.adjust k (.startNotIn n) = .startNotIn (n + k)) := by
   refine ⟨?_, ?_, ?_, ?_, ?_, ?_, ?_, ?_, ?_, ?_, ?_⟩ <;> intros <;> rfl
 
+open Vore.Spec in
+/-- an inline subroutine `{B} = s` matches exactly what `B` matches where it stands: same successes in
+the same order, same continuations -/
+theorem C13_sub_transparent (text : Bytes) (lf pf : Nat) (ρ : Procs) (callK : RExpr → Data → SK → FK → Option SRes)
+    (id : Nat) (x : String) (body : RExpr) (d : Data) (ks : SK) (fk : FK) :
+    mrWith text lf pf ρ callK (.sub id x body .skip) d ks fk = mrWith text lf pf ρ callK body d ks fk := by
+  have : withPred pf .skip ks = ks := by
+    funext d' fk'; simp [withPred, predHolds]
+  simp only [mrWith, this]
+
+open Vore.Spec in
+/-- a call `s` matches exactly what the body of `s` matches at the point of reference (one level of
+call-depth fuel is spent) -/
+theorem C13_call_transparent (text : Bytes) (lf pf : Nat) (ρ : Procs) (cf : Nat) (x y : String) (id : Nat)
+    (body : RExpr) (hρ : ρ.find id = some (y, body, .skip)) (d : Data) (ks : SK) (fk : FK) :
+    mrN text lf pf ρ (cf + 1) (.call x id) d ks fk = mrN text lf pf ρ cf body d ks fk := by
+  have : withPred pf .skip ks = ks := by
+    funext d' fk'; simp [withPred, predHolds]
+  simp only [mrN, mrWith, hρ, this]
+
+open Vore.Spec in
+/-- a global pattern with a predicate: its body in place, then the predicate on everything matched so far -/
+theorem C13_global_transparent (text : Bytes) (lf pf : Nat) (ρ : Procs) (callK : RExpr → Data → SK → FK → Option SRes)
+    (id : Nat) (x : String) (body : RExpr) (pred : Stmt) (d : Data) (ks : SK) (fk : FK) :
+    mrWith text lf pf ρ callK (.sub id x body pred) d ks fk =
+      mrWith text lf pf ρ callK body d (fun d' fk' =>
+        match predHolds pf pred d' with
+        | some true => ks d' fk'
+        | some false => fk' ()
+        | none => none) fk := rfl
+
+open Vore.Spec in
+/-- two spellings with the same specification have the same VM results (from C01 stage 2): what
+remains of "naming is transparent" is a statement about the specification alone -/
+theorem C13_vm_follows_spec (r1 r2 : RExpr) (h1 : UniqueSubs r1) (h2 : UniqueSubs r2) (w1 : WfR r1) (w2 : WfR r2)
+    (n1 : lenR r1 ≠ 0) (n2 : lenR r2 ≠ 0) (text : Bytes) (pf cf nid1 nid2 : Nat) (A : List Match)
+    (s1 : findAllR text pf cf r1 = some A) (s2 : findAllR text pf cf r2 = some A) :
+    ∃ vf0, ∀ vf, vf0 ≤ vf → ∀ amt,
+      findMatches pf vf (genBody r1 nid1).1 amt text = findMatches pf vf (genBody r2 nid2).1 amt text := by
+  obtain ⟨v1, hv1⟩ := findMatches_genBody pf text cf r1 nid1 h1 w1 n1 A s1
+  obtain ⟨v2, hv2⟩ := findMatches_genBody pf text cf r2 nid2 h2 w2 n2 A s2
+  exact ⟨max v1 v2, fun vf hle amt => by
+    rw [hv1 vf (Nat.le_trans (Nat.le_max_left _ _) hle) amt, hv2 vf (Nat.le_trans (Nat.le_max_right _ _) hle) amt]⟩
+
+#print axioms C13_sub_transparent
+#print axioms C13_call_transparent
+#print axioms C13_global_transparent
+#print axioms C13_vm_follows_spec
 #print axioms C13_concat
 #print axioms C13_relocate_atoms
 
